@@ -14,13 +14,13 @@ type CallCont func(st *State, res Val, panicked bool)
 
 func (ex *Exec) call(fr *Frame, x *ssa.Call, st *State, k CallCont) {
 	common := x.Common()
-	if b, ok := common.Value.(*ssa.Builtin); ok {
-		ex.builtin(fr, x, b, st, k)
-		return
-	}
 	var args []Val
 	for _, a := range common.Args {
 		args = append(args, ex.val(fr, st, a))
+	}
+	if b, ok := common.Value.(*ssa.Builtin); ok {
+		ex.builtin(fr, common, b, args, st, k)
+		return
 	}
 	if common.IsInvoke() {
 		recv := ex.val(fr, st, common.Value)
@@ -42,6 +42,10 @@ func (ex *Exec) call(fr *Frame, x *ssa.Call, st *State, k CallCont) {
 
 func (ex *Exec) callValue(fr *Frame, fnv Val, args []Val, site ssa.Instruction, common *ssa.CallCommon, st *State, k CallCont) {
 	vc := ex.vc
+	if b, ok := common.Value.(*ssa.Builtin); ok {
+		ex.builtin(fr, common, b, args, st, k)
+		return
+	}
 	if common.IsInvoke() && fnv.K != VClosure {
 		// deferred interface method call
 		ex.invoke(fr, site, common, fnv, args, st, k)
@@ -358,6 +362,10 @@ func (ex *Exec) invoke(fr *Frame, site ssa.Instruction, common *ssa.CallCommon, 
 		ex.applyContract(fr, c, nil, sig, all, site, st, k, name)
 		return
 	}
+	// closed-world dispatch for small interfaces declared in the repository
+	if ex.dispatch(fr, site, common, recv, args, st, k) {
+		return
+	}
 	// error.Error() and friends: pure
 	if common.Method.Name() == "Error" || common.Method.Name() == "String" {
 		k(st, tv(vc.fresh("str", SStr)), false)
@@ -620,10 +628,10 @@ func (ex *Exec) applyHavoc(st *State, ws *WriteSet) {
 
 // builtins ---------------------------------------------------------------------
 
-func (ex *Exec) builtin(fr *Frame, x *ssa.Call, b *ssa.Builtin, st *State, k CallCont) {
+func (ex *Exec) builtin(fr *Frame, common *ssa.CallCommon, b *ssa.Builtin, argVals []Val, st *State, k CallCont) {
 	vc := ex.vc
-	args := x.Call.Args
-	arg := func(i int) Val { return ex.val(fr, st, args[i]) }
+	args := common.Args
+	arg := func(i int) Val { return argVals[i] }
 	switch b.Name() {
 	case "len":
 		a := ex.toTerm(st, arg(0), args[0].Type())
@@ -728,4 +736,60 @@ func (ex *Exec) builtin(fr *Frame, x *ssa.Call, b *ssa.Builtin, st *State, k Cal
 	default:
 		vc.fatalf("unsupported builtin %s at %s", b.Name(), ex.where())
 	}
+}
+
+// dispatch forks over the concrete types implementing a repository interface
+// and inlines the method body of each (closed-world assumption, listed).
+func (ex *Exec) dispatch(fr *Frame, site ssa.Instruction, common *ssa.CallCommon, recv Val, args []Val, st *State, k CallCont) bool {
+	vc := ex.vc
+	it := common.Value.Type()
+	nt, ok := types.Unalias(it).(*types.Named)
+	if !ok || !vc.sorts.inRepo(nt.Obj().Pkg()) {
+		return false
+	}
+	iface, ok := nt.Underlying().(*types.Interface)
+	if !ok {
+		return false
+	}
+	impls := vc.prog.implementers(iface)
+	if len(impls) == 0 || len(impls) > 16 {
+		return false
+	}
+	type target struct {
+		t  types.Type
+		fn *ssa.Function
+	}
+	var ts []target
+	for _, t := range impls {
+		ms := vc.prog.ssaProg.MethodSets.MethodSet(t)
+		sel := ms.Lookup(common.Method.Pkg(), common.Method.Name())
+		if sel == nil {
+			return false
+		}
+		fn := vc.prog.ssaProg.MethodValue(sel)
+		if fn == nil {
+			return false
+		}
+		ts = append(ts, target{t, fn})
+	}
+	rt := ex.toTerm(st, recv, it)
+	vc.usedExt["closed world for interface "+nt.Obj().Name()+": its dynamic types are the repository types implementing it"] = true
+	cur := ex.cur
+	for _, tg := range ts {
+		c := vc.sorts.AnyCtor(tg.t)
+		test := app("(_ is "+c.name+")", rt.S)
+		if st.known(test) == -1 {
+			continue
+		}
+		st2 := st.clone()
+		st2.assume(test)
+		st2.note("%s: dynamic type %s", ex.where(), types.TypeString(tg.t, func(p *types.Package) string { return p.Name() }))
+		payload := tv(Term{app(c.sel, rt.S), c.sort})
+		ex.callFunc(fr, tg.fn, nil, append([]Val{payload}, args...), site, st2, k)
+		ex.cur = cur
+		if st.known(test) == 1 {
+			return true
+		}
+	}
+	return true
 }
